@@ -18,6 +18,7 @@ import (
 	"sort"
 	"strconv"
 
+	"github.com/openGemini/openGemini/lib/config"
 	"github.com/openGemini/openGemini/lib/logger"
 	"github.com/openGemini/openGemini/lib/raftlog"
 	"go.etcd.io/etcd/raft/v3"
@@ -553,6 +554,7 @@ func (w *world) close() {
 // ---- running a case ----
 
 var caseNo int
+var part string
 
 func runCase(kind string, src source) *Case {
 	c := &Case{Case: caseNo, Kind: kind, Ops: []Op{}, Oracle: []string{}, OrKinds: []string{}, Clob: []uint64{}, Unrep: []int{}, UnrepDel: []int{}, UnrepDB: []int{}, Stats: map[string]int{}}
@@ -585,12 +587,22 @@ func workDir() string {
 		d = "."
 	}
 	d = filepath.Join(d, "c17data")
+	if fixedLite {
+		d += "_v1" // the two configurations may run at the same time
+	}
+	d += part
 	_ = os.MkdirAll(d, 0o755)
 	return d
 }
 
 func main() {
 	logger.SetLogger(zap.NewNop())
+	// second configuration: the older file wrapper (entry-file-rw-type = 1, whole-file buffers instead of per-slot caches)
+	if os.Getenv("VERIF_C17_RW") == "1" {
+		config.SetEntryFileRWType(1)
+		fixedLite = true
+		caseNo = 1000
+	}
 	installFS()
 	if len(os.Args) < 2 {
 		fmt.Fprintln(os.Stderr, "usage: c17 gen nsmall nsize ncount | replay file | consts")
@@ -618,14 +630,29 @@ func main() {
 		for i := 0; i < 3 && i+2 < len(os.Args); i++ {
 			n[i], _ = strconv.Atoi(os.Args[i+2])
 		}
-		for _, ops := range witnessCases() {
+		// VERIF_C17_PART = fixed | gen: only the fixed (witness, crash, corpus) or only the generated cases, so that the
+		// driver can run the two halves at the same time (separate directories, disjoint case numbers)
+		part = os.Getenv("VERIF_C17_PART")
+		if part == "gen" {
+			caseNo += 500
+		}
+		for i, ops := range witnessCases() {
+			if part == "gen" {
+				break
+			}
+			if fixedLite && (i == 0 || i == 1 || i == 3 || i == 7) {
+				continue // the 30000-entry witnesses: first configuration only
+			}
 			gen.Emit(runCase("witness", fromList(ops)))
 		}
 		for _, ops := range crashCases() {
+			if part == "gen" {
+				break
+			}
 			gen.Emit(runCase("crashpoint", fromList(ops)))
 		}
 		// minimised past failures and hand-picked cases (corpus/C17/*.json), before anything generated
-		if dir := os.Getenv("VERIF_CORPUS"); dir != "" {
+		if dir := os.Getenv("VERIF_CORPUS"); dir != "" && part != "gen" {
 			names, _ := filepath.Glob(filepath.Join(dir, "*.json"))
 			sort.Strings(names)
 			for _, nm := range names {
@@ -637,6 +664,9 @@ func main() {
 					gen.Emit(runCase("corpus", fromList(in.Ops)))
 				}
 			}
+		}
+		if part == "fixed" {
+			return
 		}
 		r := gen.FromEnv(17)
 		for i := 0; i < n[0]; i++ {
